@@ -2,6 +2,7 @@
 //! DESIGN.md Appendix A and prints canonical observations.
 
 pub mod framebuf;
+pub mod machine;
 pub mod slots;
 pub mod smoother;
 pub mod tune;
@@ -15,6 +16,7 @@ pub trait Engine {
 pub fn make(name: &str) -> Option<Box<dyn Engine>> {
     match name {
         "framebuf" => Some(Box::new(framebuf::FrameBufEngine::default())),
+        "machine" => Some(Box::new(machine::MachineEngine::default())),
         "parsecheck" => Some(Box::new(framebuf::ParseCheckEngine::default())),
         "slots" => Some(Box::new(slots::SlotsEngine::default())),
         "smoother" => Some(Box::new(smoother::SmootherEngine::default())),
